@@ -759,7 +759,7 @@ func runC02(ctx *core.Ctx) {
 	ctx.Res.Exhaustive = true
 
 	// ---- 2. seeded random, mostly valid
-	for i := 0; i < ctx.Pick(4000, 120000); i++ {
+	for i := 0; i < ctx.Pick(4000, 60000); i++ {
 		n := ctx.Rng.Intn(6)
 		m := c02KVMap(ctx, n, true)
 		tv := core.EncodeVal(m)
@@ -777,11 +777,11 @@ func runC02(ctx *core.Ctx) {
 		ctx.Add("c02.mapping", c02ValArgs{V: lv})
 		ctx.Add("c02.mapping", c02ValArgs{V: lv, Kind: "mwe"})
 	}
-	for i := 0; i < ctx.Pick(6000, 200000); i++ {
+	for i := 0; i < ctx.Pick(6000, 100000); i++ {
 		ctx.Count("merge-random")
 		ctx.Add("c02.merge", c02MergeArgs{Base: core.EncodeVal(c02TopMap(ctx)), Over: core.EncodeVal(c02TopMap(ctx))})
 	}
-	for i := 0; i < ctx.Pick(1500, 40000); i++ {
+	for i := 0; i < ctx.Pick(1500, 20000); i++ {
 		g := c02GraphGen(ctx, 2+ctx.Rng.Intn(2), 3)
 		if graphVariantCount(g) > 300 {
 			ctx.Count("graph-random-skipped-too-many-orders")
